@@ -22,6 +22,7 @@ import BW.Proofs.Query
 import BW.Proofs.PlannerFetch3
 import BW.Proofs.PlannerStep6
 import BW.Proofs.PlannerStep11
+import BW.Proofs.Projection
 
 namespace BW.Props.C03
 open BW.Model BW.Spec BW.Proofs.Query BW.Proofs.Planner BW.Proofs.Store BW.Proofs.ClauseOrder
@@ -170,6 +171,22 @@ theorem one_clause_is_one_join {F : Facts} (hF : Facts.WF F = true) {gs : List Q
     (unres = true → joinClause (gs.flatMap scanOf) (nl lo.lower) (nl lo.upper) (absRows tbl) c = []) :=
   processClause_spec hF hg U ht hc.wf hc.consts hc.inU hfil hfirst (fun he hb => absurd (hc.noBareAliases he) hb) h
 
+/-! ### Projected onto the selected bindings -/
+
+/-- The plain projection of the planner (`projectPlain`: for each projection in turn, copy the binding's
+    cell to the alias) shows in every output column the cell the reference's simultaneous projection
+    shows — for statements whose aliases are fresh names (no alias is the input of a projection or the
+    output of another one: what `?a as ?b, ?b as ?c` would break) and rows that hold every projected binding. -/
+theorem projection_is_simultaneous (ps : List Proj) (rows : List Row) (hb : ∀ p ∈ ps, p.binding ≠ [])
+    (hf : BW.Proofs.Projection.FreshAliases ps) (hr : ∀ r ∈ rows, ∀ p ∈ ps, r.has p.binding = true) :
+    let projected := ps.foldl (fun rows p => rows.map fun r => match r.get p.binding with
+        | some c => r.set p.alias c
+        | none => r) rows
+    projected = rows.map (BW.Proofs.Projection.seqProj ps) ∧
+    ∀ r ∈ rows, ∀ p ∈ ps, (BW.Proofs.Projection.seqProj ps r).get p.out = (project ps r).get p.out :=
+  ⟨BW.Proofs.Projection.projectPlain_rows ps rows,
+   fun r hr' p hp => BW.Proofs.Projection.projection_spec ps r hb hf (hr r hr') p hp⟩
+
 /-- Non-vacuity: the hypotheses hold for a one-triple graph and a clause with a constant predicate. -/
 def exV : TView := { id := 0, ks := preNode exT.s, pid := exT.p.id, pnano := none, ko := preNode ⟨[47, 117], [98]⟩ }
 def exQ : QGraph := { g := Graph.empty.add1 Facts.reference exV, uni := fun _ => some exT }
@@ -253,3 +270,4 @@ end BW.Props.C03
 #print axioms BW.Props.C03.specialisation_is_transparent
 #print axioms BW.Props.C03.select_pattern_eq_solutions
 #print axioms BW.Props.C03.one_clause_is_one_join
+#print axioms BW.Props.C03.projection_is_simultaneous
